@@ -654,7 +654,7 @@ impl Formatter {
         let text_str = self.inline_paragraph(text);
         if self.html {
           format!("<a href=\"{}\" class=\"mech-hyperlink\">{}</a>",url_str,text_str)
-        } else if text_str == url_str {
+        } else if text_str == url_str || text.elements.iter().map(|e| match e { ParagraphElement::Text(t) => t.to_string(), _ => "\u{0}".to_string() }).collect::<String>() == url_str {
           url_str
         } else {
           format!("[{}]({})",text_str,url_str)
